@@ -45,9 +45,11 @@ def gen_cases(tier, seed):
                           "weights": False, "nq": 1, "nmax": 12 if tier == "quick" else 18, "rs": "int", "data": dat, "cmode_forced": cm,
                           "labels": lab, "batch": bat})
         # every strategy once as a used object: it answered the next cycle and a three times denser pool before
-        cases.append({"family": "pool", "entry": name, "seed": stable_hash(seed, "C06", "used", name), "wrap": "none", "prefit": False,
-                      "weights": False, "nq": 1, "nmax": 12 if tier == "quick" else 18, "rs": "int", "data": "normal", "cmode_forced": "none",
-                      "labels": "half", "batch": "exact", "rmode": 2, "dense": True})
+        for j in range(3):
+            cases.append({"family": "pool", "entry": name, "seed": stable_hash(seed, "C06", "used", name, j), "wrap": "none", "prefit": False,
+                          "weights": False, "nq": 1, "nmax": [12, 20, 30][j] if tier == "quick" else 30, "rs": "int",
+                          "data": ["normal", None, "normal"][j], "cmode_forced": "none", "labels": ["half", "random", "half"][j],
+                          "batch": ["exact", None, "2-3"][j], "rmode": 2, "dense": j != 1})
     for i in range(reps * 3):
         cases.append({"family": "pool", "entry": "IntervalEstimationThreshold", "seed": stable_hash(seed, "C06", "iet", i), "wrap": "iet",
                       "prefit": False, "weights": False, "nq": 1, "nmax": 10, "rs": "int", "data": None})
@@ -60,7 +62,7 @@ def gen_cases(tier, seed):
         for i in range(reps):
             cases.append({"family": "bm", "name": name, "bm": None, "seed": stable_hash(seed, "C06", "bm", name, i), "rs": ["int", "instance"][i % 2]})
     for name in list(models.CLASSIFIERS) + ["sk_unfitted"]:
-        for i in range(reps):
+        for i in range(reps * 2):
             cases.append({"family": "clf", "name": name, "seed": stable_hash(seed, "C06", "clf", name, i), "cold": bool(i % 2)})
     for name in models.PROBABILISTIC_REGRESSORS:
         for i in range(reps):
